@@ -4,7 +4,16 @@ OPS += [
 ]
 def extra_theorems(n):
     p = int(n)
-    return f"""/-- `combine!`: the full phase-level safety statement is false (known findings KF2, KF3: messages to members that are not
+    full = ""
+    if n in ("01", "17"):
+        full = f"""
+/-- `share`, EVERY conformant environment (nested fan-out included): the only phase-level violations share can commit are deliveries
+to sinks that are already done (C02/C03, known findings KF5a/KF5b), hence C{n} holds in full. -/
+theorem C{n}_share {{α : Type}} :
+    ∀ s, SReach (Share.machine α) s → SafeFor {p} s :=
+  fun s hs => safeFor_of_onlyLateDelivery _ s hs (ShareWeak.share_safe_weak s hs).1 (ShareWeak.share_safe_weak s hs).2 {p} (by decide)
+"""
+    return full + f"""/-- `combine!`: the full phase-level safety statement is false (known findings KF2, KF3: messages to members that are not
 live, a C04 matter); what is proved is that those are the ONLY phase-level violations, hence C{n} holds in full. -/
 theorem C{n}_combine {{α : Type}} (n : Nat) :
     ∀ s, SReach (Combine.machine α n) s → SafeFor {p} s :=
@@ -17,4 +26,4 @@ theorem C{n}_share_partial {{α : Type}} :
     ∀ s, SReachR (Share.machine α) noNestedFanout s → SafeFor {p} s :=
   fun s hs => safeFor_of_basicSafe _ s hs.weaken (Share.share_basicSafe_partial s hs) {p} (by decide)
 """
-OPS_IMPORT_EXTRA = ["Combine", "Share"]
+OPS_IMPORT_EXTRA = ["Combine", "Share", "ShareWeak"]
